@@ -225,7 +225,7 @@ def c18_run(rep, rng, tier, term):
     for s in str_inputs:
         for ae in (False, True):
             reqs.append([2, 0, s, ae]); meta.append(('str', s, ae))
-    odd_lists = [[], ['1', 31], [' 5 ', '38', 5, 1], ['x', 1], ['', 1], [1, '']]
+    odd_lists = [[], ['1', 31], [' 5 ', '38', 5, 1], ['x', 1], ['', 1], [1, ''], ['1', '', '31'], [38, 5, '', 1], [''], [' '], ['', ''], [1, ' x ', 2], ['+1', 4], ['1_0'], [38, 5, 'x', 1]]
     for l in odd_lists:
         for ae in (False, True):
             reqs.append([2, 1, [x if isinstance(x, int) else x for x in l], ae]); meta.append(('list', l, ae))
@@ -273,6 +273,22 @@ def c18_run(rep, rng, tier, term):
                 continue
             if cs and toks != list(cs):
                 out.append({'oracle': 'C18.erroneous', 'case': payload, 'msg': 'tokens %s returned for input %s' % (toks, cs)})
+        # a list is the ';'-separated string split at ';' (an empty item is 0), and it is not modified
+        for w in odd_strs:
+            for ae in (False, True):
+                l = w.split(';')
+                snap = list(l)
+                try:
+                    a = [str(x) for x in parse_graphic_sequence(w, ae)] if w else None
+                    b = [str(x) for x in parse_graphic_sequence(l, ae)]
+                except Exception as e:  # noqa
+                    out.append({'oracle': 'C18.forms', 'case': {'string': w, 'add_erroneous': ae}, 'msg': 'raised %r' % e})
+                    continue
+                if l != snap:
+                    out.append({'oracle': 'C18.forms', 'case': {'string': w, 'add_erroneous': ae}, 'msg': 'parse_graphic_sequence modified its list argument: %r -> %r' % (snap, l)})
+                if a is not None and a != b:
+                    out.append({'oracle': 'C18.forms', 'case': {'string': w, 'add_erroneous': ae},
+                                'msg': 'parse_graphic_sequence(%r) gives %s but the same items as a list %r give %s' % (w, a, snap, b)})
         # "a list of ints/strings": the same codes written as decimal strings, or mixed, split exactly like the ints
         for cs in lists[::3]:
             if not cs:
